@@ -86,6 +86,41 @@ inductive YS (α : Type) where
   | dict (ks : List Nat) (vs : List (YS α))
   deriving Repr, Inhabited
 
+mutual
+def YS.decEq {α : Type} [DecidableEq α] : (x y : YS α) → Decidable (x = y)
+  | .none, .none => isTrue rfl
+  | .junk, .junk => isTrue rfl
+  | .f r, .f r' => if h : r = r' then isTrue (by rw [h]) else isFalse (by intro h'; injection h'; contradiction)
+  | .tup l, .tup m => match YS.decEqList l m with
+    | isTrue h => isTrue (by rw [h])
+    | isFalse h => isFalse (by intro h'; injection h'; contradiction)
+  | .lst l, .lst m => match YS.decEqList l m with
+    | isTrue h => isTrue (by rw [h])
+    | isFalse h => isFalse (by intro h'; injection h'; contradiction)
+  | .dict k l, .dict k' m =>
+    if hk : k = k' then
+      match YS.decEqList l m with
+      | isTrue h => isTrue (by rw [h, hk])
+      | isFalse h => isFalse (by intro h'; injection h'; contradiction)
+    else isFalse (by intro h'; injection h'; contradiction)
+  | .none, .junk | .none, .f _ | .none, .tup _ | .none, .lst _ | .none, .dict _ _ => isFalse (by intro h; cases h)
+  | .junk, .none | .junk, .f _ | .junk, .tup _ | .junk, .lst _ | .junk, .dict _ _ => isFalse (by intro h; cases h)
+  | .f _, .none | .f _, .junk | .f _, .tup _ | .f _, .lst _ | .f _, .dict _ _ => isFalse (by intro h; cases h)
+  | .tup _, .none | .tup _, .junk | .tup _, .f _ | .tup _, .lst _ | .tup _, .dict _ _ => isFalse (by intro h; cases h)
+  | .lst _, .none | .lst _, .junk | .lst _, .f _ | .lst _, .tup _ | .lst _, .dict _ _ => isFalse (by intro h; cases h)
+  | .dict _ _, .none | .dict _ _, .junk | .dict _ _, .f _ | .dict _ _, .tup _ | .dict _ _, .lst _ => isFalse (by intro h; cases h)
+def YS.decEqList {α : Type} [DecidableEq α] : (x y : List (YS α)) → Decidable (x = y)
+  | [], [] => isTrue rfl
+  | [], _ :: _ => isFalse (by intro h; cases h)
+  | _ :: _, [] => isFalse (by intro h; cases h)
+  | x :: xs, y :: ys =>
+    match YS.decEq x y, YS.decEqList xs ys with
+    | isTrue h1, isTrue h2 => isTrue (by rw [h1, h2])
+    | isFalse h1, _ => isFalse (by intro h; injection h; contradiction)
+    | _, isFalse h2 => isFalse (by intro h; injection h; contradiction)
+end
+instance {α : Type} [DecidableEq α] : DecidableEq (YS α) := YS.decEq
+
 abbrev Y := YS Ref
 abbrev RY := YS Nat
 
@@ -117,6 +152,7 @@ inductive Body where
   | errfut (e : Nat) (k : Body)                       -- ErrorFuture
   | lazy (o : LazyOut) (k : Body)                     -- Future(provider)
   | yld (y : Y) (k h : Body)                          -- yield y; value → k, exception → h
+  | reyld (k h : Body)                                -- yield once more the very object yielded last
   | sync (child : Body) (pass : List Ref) (k h : Body) -- child.asynq(...).value() inside a step
   | syncfut (r : Ref) (k h : Body)                    -- r.value() inside a step
   | syncret (f : Nat) (k h : Body)                    -- run time only: value() of future f is returning
@@ -133,8 +169,10 @@ inductive Conv where
 
 inductive NewKind where
   | task (creator : Option Nat)
-  | item (kind seq idx : Nat)
-  | const | errfut | lazy
+  | item (kind seq idx payload : Nat) (mode : ItemMode)
+  | const (v : Nat)
+  | errfut (e : Nat)
+  | lazy
   deriving Repr, DecidableEq, Inhabited
 
 inductive Recv where
@@ -156,19 +194,21 @@ inductive Event where
   | top (idx : Nat) (conv : Conv)
   | new (f : Nat) (k : NewKind)
   | run (t i : Nat) (dc : Bool) (recv : Recv)
-  | yield (t i : Nat) (leaves : List Nat)
+  | yield (t i : Nat) (y : RY)
   | done (f : Nat) (o : Outcome)
   | bdone (kind seq : Nat) (ok : Bool)
   | flushB (kind seq : Nat) (items : List Nat) (prio : Nat × Nat) (pending : List PendingB)
   | flushI (kind seq : Nat) (items : List Nat)
   | flushE (kind seq : Nat)
   | ctx (resume : Bool) (c : Nat)
+  | ctxN (c t : Nat) (k : CtxKind)     -- a context object is created by task t (just before `__enter__`)
+  | ctxX (c : Nat)                     -- its `__exit__` has returned
   | active (t : Nat) (seen : Option Nat)
   | read (t var : Nat) (v : Val)
   | syncE (t f : Nat)
   | syncX (t f : Nat) (o : Outcome)
   | ret (o : Outcome)
-  | sched (same : Bool) (ntasks nbatches : Nat) (active : Option Nat)
+  | sched (same : Bool) (ntasks nbatches nlive : Nat) (active : Option Nat)
   | svals (l : List (Nat × Val))
   | bad (s : String)     -- an implementation event the vocabulary cannot express (never produced by the model)
   deriving Repr, DecidableEq, Inhabited
